@@ -372,6 +372,37 @@ def none_hash_entry_points(run):
                         run.violation(f"C18|none-hash|{default}|{label}|{op}-not-false", f"{op}('pw', None, {kw}) returned {r!r}", w)
 
 
+def both_disabled(run):
+    """a context listing both disabled-account hashers: the one listed first does the disabling, and it is the one
+    that recognises the result (so that what disable() makes, enable() can treat consistently)"""
+    from passlib.context import CryptContext
+    import passlib.hash as PH
+    orig = PH.md5_crypt.hash(PW)
+    for order in (["md5_crypt", "unix_disabled", "django_disabled"], ["md5_crypt", "django_disabled", "unix_disabled"],
+                  ["unix_disabled", "md5_crypt", "django_disabled"], ["django_disabled", "unix_disabled", "md5_crypt"]):
+        first = next(s_ for s_ in order if s_.endswith("_disabled"))
+        ctx = CryptContext(schemes=order, default="md5_crypt")
+        for label, arg in (("with-hash", orig), ("bare", None)):
+            w = dict(schemes=order, first_disabled_hasher=first, original_kind=label)
+            try:
+                dis = ctx.disable(arg) if arg is not None else ctx.disable()
+                ident = ctx.identify(dis)
+                try:
+                    back = ctx.enable(dis)
+                except ValueError:
+                    back = ValueError
+                v = ctx.verify(PW, dis)
+            except Exception as e:
+                run.violation(f"C18|both-disabled-hashers|raises|{type(e).__name__}", f"context {order}: disable/enable raised {type(e).__name__}: {str(e)[:80]}", w)
+                continue
+            run.count("both_disabled_cases")
+            run.case(("both-disabled", first, label, order.index(first)), dict(w, disabled=dis))
+            want_back = orig if (first == "unix_disabled" and arg is not None) else ValueError
+            if ident != first or v is not False or ctx.is_enabled(dis) is not False or back != want_back:
+                run.violation(f"C18|both-disabled-hashers|{first}-first|{label}",
+                              f"context {order}: disable({label}) -> {dis[:20]!r}.. identified as {ident!r} (the first disabled hasher is {first}), verify={v}, enable -> {back if back is ValueError else back[:20]!r}; expected {'the original hash' if want_back is not ValueError else 'ValueError'}", w)
+
+
 def long_originals(run):
     """an original hash longer than the library-wide password size limit is still just a hash: it can be disabled, stays
     disabled, and (unix_disabled) comes back intact"""
@@ -437,6 +468,8 @@ def body(run):
     cross_marker(run)
     long_originals(run)
     none_hash_entry_points(run)
+    both_disabled(run)
+    run.require("both_disabled_cases", 8)
     run.require("none_hash_entry_points", 200)
     # the same with a lowered library-wide size limit (environment switch read at import): ordinary hashes are then "long"
     run.parallel("checks.c18", "long_originals", [dict()], timeout=600, env={"PASSLIB_MAX_PASSWORD_SIZE": "64"})
